@@ -483,7 +483,9 @@ theorem compile_self_tail_call (isFn : Nat → Bool) (c : Ctx) (h : String) (arg
           | some fo => if fo.varargs then decide (fo.nargs ≤ args.length) else args.length == fo.nargs
           | none => true) then do
         let code ← compileCallArgs isFn { c with tail := false } ((c.known.lookup h).bind (fun t => gs.fns[t]?)) 0 args
-        pure (code ++ [.prepareCall h args.length] ++ List.replicate (c.scopes + 1) .removeScope ++ [.goto 0], c.tail)
+        -- after fix C09-02: the guard in front, the ordinary call behind the jump
+        pure ([.tailGuard h (code.length + c.scopes + 4)] ++ code ++ [.prepareCall h args.length] ++
+              List.replicate (c.scopes + 1) .removeScope ++ [.goto 0, .callExpr (.sym h) args], c.tail)
       else pure ([.callExpr (.sym h) args], c.tail)) := by
   simp only [compile, hn]; rfl
 
